@@ -202,6 +202,8 @@ class OPA(BaseModelSingleSet):
         # necessarily positive definite, so its singular values would be the absolute
         # eigenvalues; use a symmetric eigensolver and keep the largest eigenvalues.
         n_modes = self._params["n_modes"]
+        if not isinstance(n_modes, (int, np.integer)) or n_modes < 1:
+            raise ValueError("n_modes must be an integer greater than 0")
         lbda, U = xr.apply_ufunc(
             np.linalg.eigh,
             target,
